@@ -193,6 +193,32 @@ func c02Run(c *fw.Ctx) {
 		}
 	})
 	c02Ladder(c, run)
+	// long streams through ONE parser: K copies of a value, then values of every kind
+	// (whatever the parser keeps per stream must not wear out)
+	tail := []resp.Value{resp.A(resp.A(resp.B("x")), resp.A()), resp.S("OK"), resp.A(resp.B("GET"), resp.B("k")), resp.Nil()}
+	for _, e := range []resp.Value{resp.A(), resp.A(resp.A()), resp.Nil(), resp.B(""), resp.I(7), resp.A(resp.B("PING"))} {
+		for _, k := range []int{127, 128, 129, 300, 1100} {
+			if !c.Mine() {
+				continue
+			}
+			var stream []byte
+			var want []resp.Value
+			bounds := map[int]bool{0: true}
+			for i := 0; i < k; i++ {
+				stream = append(stream, e.Bytes()...)
+				want = append(want, e)
+				bounds[len(stream)] = true
+			}
+			for _, t := range tail {
+				stream = append(stream, t.Bytes()...)
+				want = append(want, t)
+				bounds[len(stream)] = true
+			}
+			run(stream, want, bounds, nil, 0, "long-whole")
+			run(stream, want, bounds, nil, 1, "long-stride")
+			run(stream, want, bounds, nil, 7, "long-stride")
+		}
+	}
 }
 
 // c02Ladder: bulk strings whose length sits on or next to a power of two or
@@ -305,7 +331,7 @@ func init() {
 	fw.Register(&fw.Prop{
 		ID:    "C02",
 		Level: "exploration",
-		Rule:  "streams = all concatenations of 1..3 values from a 40-value representative set (every type; CRLF/prefix-looking bulk bodies; empty/null bulks; empty, nested, mixed arrays; multi-digit lengths and counts); delivery scripts = whole, EVERY 2-way split offset, every 3-way split for streams <=48 bytes (thorough <=96, plus every 4-way split for streams <=28 bytes and 20736 four-value sequences), strides 1/2/3/5/7, split after every CR. Size ladder: a bulk string of every length 2^k-1, 2^k, 2^k+1 (k=3..16, thorough 17) and 10^k-1, 10^k, 10^k+1 (k=1..4, thorough 5), with CRLF/header-looking content, plain content, and inside a command array, followed by two more values: whole, every 2-way split within 10 (thorough 40) bytes of each structural position (value start, end of the length header, end of the payload, end of each value) and around every 2^k stream offset >= 4096 (thorough: every offset for lengths <= 5000), strides 1/2/3/4096/32768. A case (stream, script) is non-trivial when at least one split falls strictly inside a value.",
+		Rule:  "streams = all concatenations of 1..3 values from a 40-value representative set (every type; CRLF/prefix-looking bulk bodies; empty/null bulks; empty, nested, mixed arrays; multi-digit lengths and counts); delivery scripts = whole, EVERY 2-way split offset, every 3-way split for streams <=48 bytes (thorough <=96, plus every 4-way split for streams <=28 bytes and 20736 four-value sequences), strides 1/2/3/5/7, split after every CR. Long streams: 127..1100 copies of one value (empty and nested arrays, nil, empty bulk, integer, command) followed by values of every kind through one parser, whole and strides 1 and 7. Size ladder: a bulk string of every length 2^k-1, 2^k, 2^k+1 (k=3..16, thorough 17) and 10^k-1, 10^k, 10^k+1 (k=1..4, thorough 5), with CRLF/header-looking content, plain content, and inside a command array, followed by two more values: whole, every 2-way split within 10 (thorough 40) bytes of each structural position (value start, end of the length header, end of the payload, end of each value) and around every 2^k stream offset >= 4096 (thorough: every offset for lengths <= 5000), strides 1/2/3/4096/32768. A case (stream, script) is non-trivial when at least one split falls strictly inside a value.",
 		Assumptions: []string{
 			"Read never returns (0,nil) or (n>0,EOF): neither net.TCPConn nor tls.Conn does",
 			"random k-way partitions of the quantifier are not claimed",
